@@ -300,4 +300,57 @@ def programs(tier):
     p.impl("Tr", INT32, [("tm", [("self", INT32), ("a", INT32)], INT32, Var("a"))])
     p.fn("main", [], UNIT, Block([Let("d", ToDyn("Tr", Bool(True)), ty=TDyn("Tr")), println(show_int(TCall("Tr", "tm", Var("d"), Int(3))))], Unit))
     out.append({"prog": p, "family": "c17", "ident": "c17:dyn-coercion-without-impl", "expect": "reject"})
+    # ---- a coercion to dyn whose (trait, type) pair occurs at ONE place of the program only: the walks that collect the vtables and
+    # wrappers to emit must visit every construct a coercion can sit in
+    def site_expr(site, E):
+        if site == "match-default-arm":
+            return Match(Var("k"), [(PInt(0), Int(1)), (PInt(1), Int(2)), (PWild, E)])
+        if site == "match-literal-arm":
+            return Match(Var("k"), [(PInt(7), E), (PWild, Int(2))])
+        if site == "string-match-default":
+            return Match(Call("int32_to_string", Var("k")), [(PStr("0"), Int(1)), (PWild, E)])
+        if site == "string-match-literal-arm":
+            return Match(Call("int32_to_string", Var("k")), [(PStr("7"), E), (PWild, Int(2))])
+        if site == "enum-arm":
+            return Match(Ctor(TAdt("E"), "B", Var("k")), [(PCtor("B", PVar("q")), E), (PCtor("A"), Int(0))])
+        if site == "bool-arm":
+            return Match(Bin("==", Var("k"), Int(7)), [(PBool(True), E), (PBool(False), Int(3))])
+        if site == "tuple-arm":
+            return Match(Tuple(Var("k"), Bool(True)), [(PTuple(PInt(7), PBool(True)), E), (PWild, Int(4))])
+        if site == "if-then":
+            return If(Bin("==", Var("k"), Int(7)), E, Int(5))
+        if site == "if-else":
+            return If(Bin("==", Var("k"), Int(0)), Int(6), E)
+        if site == "while-body":
+            return Block([Let("acc", Call("ref", Int(0))), Let("go_on", Call("ref", Bool(True))),
+                          Do(While(Call("ref_get", Var("go_on")), Block([Do(Call("ref_set", Var("acc"), E)), Do(Call("ref_set", Var("go_on"), Bool(False)))], Unit)))], Call("ref_get", Var("acc")))
+        if site == "closure-body":
+            return Block([Let("c", Lam([("z", INT32)], Bin("+", E, Var("z"))))], CallV(Var("c"), Int(0)))
+        if site == "closure-body-default-arm":
+            return Block([Let("c", Lam([("z", INT32)], Match(Var("z"), [(PInt(1), Int(1)), (PWild, E)])))], CallV(Var("c"), Int(0)))
+        if site == "nested-block":
+            return Block([Let("u", Block([Let("w", E)], Var("w")))], Var("u"))
+        if site == "call-argument":
+            return Call("idi", E)
+        if site == "tuple-element":
+            return Proj(Tuple(Int(0), E), 1)
+        raise ValueError(site)
+    for site in ("match-default-arm", "match-literal-arm", "string-match-default", "string-match-literal-arm", "enum-arm", "bool-arm", "tuple-arm", "if-then", "if-else",
+                 "while-body", "closure-body", "closure-body-default-arm", "nested-block", "call-argument", "tuple-element"):
+        for how in ("inline", "annotated-let", "argument"):
+            p = Program(f"c17_dynsite_{site.replace('-', '_')}_{how.replace('-', '_')}")
+            decls(p)
+            p.impl("Tr", TAdt("S"), [("tm", [("self", TAdt("S")), ("a", INT32)], INT32, Bin("+", Bin("*", Field(Var("self"), "a"), Int(100)), Var("a")))])
+            p.fn("idi", [("x", INT32)], INT32, Var("x"))
+            p.fn("via", [("d", TDyn("Tr")), ("a", INT32)], INT32, TCall("Tr", "tm", Var("d"), Var("a")))
+            val = Struct(TAdt("S"), [("a", Var("k")), ("b", Bool(True))])
+            if how == "inline":
+                E = TCall("Tr", "tm", ToDyn("Tr", val), Int(1))
+            elif how == "annotated-let":
+                E = Block([Let("dd", ToDyn("Tr", val), ty=TDyn("Tr"))], TCall("Tr", "tm", Var("dd"), Int(1)))
+            else:
+                E = Call("via", ToDyn("Tr", val), Int(1))
+            p.fn("run", [("k", INT32)], INT32, site_expr(site, E))
+            p.fn("main", [], UNIT, Block([println(show_int(Call("run", Int(7)))), println(show_int(Call("run", Int(0)))), println(show_int(Call("run", Int(1))))], Unit))
+            out.append({"prog": p, "family": "c17", "ident": f"c17:dyn-coercion-only-at:{site}:{how}"})
     return out
